@@ -17,13 +17,19 @@ use std::cell::RefCell;
 struct Step {
     kind: String,
     xs: Vec<i64>,
+    /// the shape of the iterator the chunk arrives through (Ingest.tla)
+    shape: Shape,
 }
 
 fn parse_steps(v: &Value) -> Vec<Step> {
     v.as_array()
         .unwrap()
         .iter()
-        .map(|s| Step { kind: s[0].as_str().unwrap().to_string(), xs: s[1].as_array().unwrap().iter().map(|x| x.as_i64().unwrap()).collect() })
+        .map(|s| Step {
+            kind: s[0].as_str().unwrap().to_string(),
+            xs: s[1].as_array().unwrap().iter().map(|x| x.as_i64().unwrap()).collect(),
+            shape: Shape::parse(s[2].as_str().unwrap()),
+        })
         .collect()
 }
 
@@ -123,6 +129,37 @@ fn cmp_obs(a: &[(String, Option<u64>)], b: &[(String, Option<u64>)]) -> Option<S
     None
 }
 
+/// collect / extend of any f64 consumer through an iterator of the given shape (Ingest.tla)
+fn collect_shaped_f64<C>(xs: &[f64], by_ref: bool, shape: Shape) -> C
+where
+    C: std::iter::FromIterator<f64> + for<'a> std::iter::FromIterator<&'a f64>,
+{
+    let w = with_poison(xs);
+    match (shape, by_ref) {
+        (Shape::Exact, false) => xs.iter().copied().collect(),
+        (Shape::Exact, true) => xs.iter().collect(),
+        (Shape::Lazy, false) => xs.iter().copied().filter(|x| !x.is_nan() || x.is_nan()).collect(),
+        (Shape::Lazy, true) => xs.iter().filter(|x| !x.is_nan() || x.is_nan()).collect(),
+        (Shape::Resuming, false) => Resuming::new(&w, xs.len()).copied().collect(),
+        (Shape::Resuming, true) => Resuming::new(&w, xs.len()).collect(),
+    }
+}
+
+fn extend_shaped_f64<C>(c: &mut C, xs: &[f64], by_ref: bool, shape: Shape)
+where
+    C: Extend<f64> + for<'a> Extend<&'a f64>,
+{
+    let w = with_poison(xs);
+    match (shape, by_ref) {
+        (Shape::Exact, false) => c.extend(xs.iter().copied()),
+        (Shape::Exact, true) => c.extend(xs.iter()),
+        (Shape::Lazy, false) => c.extend(xs.iter().copied().filter(|x| !x.is_nan() || x.is_nan())),
+        (Shape::Lazy, true) => c.extend(xs.iter().filter(|x| !x.is_nan() || x.is_nan())),
+        (Shape::Resuming, false) => c.extend(Resuming::new(&w, xs.len()).copied()),
+        (Shape::Resuming, true) => c.extend(Resuming::new(&w, xs.len())),
+    }
+}
+
 // ------------------------------------------------------------------ single-value estimators
 fn mom_bits<T: MomT>(t: &T) -> Vec<(String, Option<u64>)> {
     let mut v = Vec::new();
@@ -143,27 +180,13 @@ fn run_mom<T: MomT>(steps: &[Step], line: &Value, e: &Embedding, rep: &mut Repor
         match s.kind.as_str() {
             "new" => obj = Some(T::new()),
             "default" => obj = Some(T::default_()),
-            // iterators that know their length, iterators that do not, and iterators that are not
-            // fused (a conforming consumer stops at the first None)
-            "collect_val" => obj = Some(if xs.len() % 3 == 2 { T::collect_resuming(&xs, false) } else if xs.len() % 2 == 1 { T::collect_val_lazy(&xs) } else { T::collect_val(&xs) }),
-            "collect_ref" => obj = Some(if xs.len() % 2 == 1 { T::collect_resuming(&xs, true) } else { T::collect_ref(&xs) }),
+            // the specification chooses the iterator's shape: one that knows its length, one that
+            // does not, one that is not fused (a conforming consumer stops at the first None)
+            "collect_val" => obj = Some(T::collect_shaped(&xs, false, s.shape)),
+            "collect_ref" => obj = Some(T::collect_shaped(&xs, true, s.shape)),
             // iterators that know their length and iterators that do not (size_hint lower bound 0)
-            "extend_val" => {
-                if xs.len() % 3 == 2 {
-                    obj.as_mut().unwrap().extend_resuming(&xs, false)
-                } else if xs.len() % 2 == 1 {
-                    obj.as_mut().unwrap().extend_val_lazy(&xs)
-                } else {
-                    obj.as_mut().unwrap().extend_val(&xs)
-                }
-            }
-            "extend_ref" => {
-                if xs.len() % 2 == 1 {
-                    obj.as_mut().unwrap().extend_resuming(&xs, true)
-                } else {
-                    obj.as_mut().unwrap().extend_ref(&xs)
-                }
-            }
+            "extend_val" => obj.as_mut().unwrap().extend_shaped(&xs, false, s.shape),
+            "extend_ref" => obj.as_mut().unwrap().extend_shaped(&xs, true, s.shape),
             "add" => obj.as_mut().unwrap().add(xs[0]),
             k => panic!("step {k}"),
         }
@@ -212,27 +235,22 @@ fn run_minmax(steps: &[Step], line: &Value, e: &Embedding, rep: &mut Report) {
                 mx = Some(Max::default());
             }
             "collect_val" => {
-                mn = Some(xs.iter().copied().collect());
-                mx = Some(xs.iter().copied().collect());
+                mn = Some(collect_shaped_f64(&xs, false, s.shape));
+                mx = Some(collect_shaped_f64(&xs, false, s.shape));
             }
             "collect_ref" => {
-                mn = Some(xs.iter().collect());
-                mx = Some(xs.iter().collect());
+                mn = Some(collect_shaped_f64(&xs, true, s.shape));
+                mx = Some(collect_shaped_f64(&xs, true, s.shape));
             }
             "extend_val" => {
-                if xs.len() % 2 == 0 {
-                    let w = with_poison(&xs);
-                    mn.as_mut().unwrap().extend(Resuming::new(&w, xs.len()).copied());
-                } else {
-                    mn.as_mut().unwrap().extend(xs.iter().copied());
-                }
+                extend_shaped_f64(mn.as_mut().unwrap(), &xs, false, s.shape);
                 max_ok = false;
                 for &x in &xs {
                     mx.as_mut().unwrap().add(x);
                 }
             }
             "extend_ref" => {
-                mn.as_mut().unwrap().extend(xs.iter());
+                extend_shaped_f64(mn.as_mut().unwrap(), &xs, true, s.shape);
                 max_ok = false;
                 for &x in &xs {
                     mx.as_mut().unwrap().add(x);
@@ -304,10 +322,10 @@ fn run_pair<T: PairT>(steps: &[Step], line: &Value, e: &Embedding, pattern: usiz
         match s.kind.as_str() {
             "new" => obj = Some(T::new()),
             "default" => obj = Some(T::default_()),
-            "collect_val" => obj = Some(T::collect_val(&xs)),
-            "collect_ref" => obj = Some(T::collect_ref(&xs)),
-            "extend_val" => obj.as_mut().unwrap().extend_val(&xs),
-            "extend_ref" => obj.as_mut().unwrap().extend_ref(&xs),
+            "collect_val" => obj = Some(T::collect_shaped(&xs, false, s.shape)),
+            "collect_ref" => obj = Some(T::collect_shaped(&xs, true, s.shape)),
+            "extend_val" => obj.as_mut().unwrap().extend_shaped(&xs, false, s.shape),
+            "extend_ref" => obj.as_mut().unwrap().extend_shaped(&xs, true, s.shape),
             "add" => obj.as_mut().unwrap().add(xs[0].0, xs[0].1),
             k => panic!("step {k}"),
         }
@@ -458,19 +476,13 @@ fn run_concat(steps: &[Step], line: &Value, e: &Embedding, rep: &mut Report) {
                 d = Some(Short3::default());
                 p = Some(Probes3::default());
             }
-            "collect_val" => {
-                a = Some(xs.iter().copied().collect());
-                b = Some(xs.iter().copied().collect());
-                c = Some(xs.iter().copied().collect());
-                d = Some(xs.iter().copied().collect());
-                p = Some(xs.iter().copied().collect());
-            }
-            "collect_ref" => {
-                a = Some(xs.iter().collect());
-                b = Some(xs.iter().collect());
-                c = Some(xs.iter().collect());
-                d = Some(xs.iter().collect());
-                p = Some(xs.iter().collect());
+            "collect_val" | "collect_ref" => {
+                let r = s.kind == "collect_ref";
+                a = Some(collect_shaped_f64(&xs, r, s.shape));
+                b = Some(collect_shaped_f64(&xs, r, s.shape));
+                c = Some(collect_shaped_f64(&xs, r, s.shape));
+                d = Some(collect_shaped_f64(&xs, r, s.shape));
+                p = Some(collect_shaped_f64(&xs, r, s.shape));
             }
             "add" => {
                 a.as_mut().unwrap().add(xs[0]);
